@@ -487,8 +487,11 @@ ElemNumber::getCountMatchPattern(
         {
             const GetCachedString   theMatchPatternString(executionContext);
 
+            // The target is a literal in the pattern, so it needs quotes.
             theMatchPatternString.get() = s_piString;
+            theMatchPatternString.get().append(1, XalanUnicode::charApostrophe);
             theMatchPatternString.get().append(contextNode->getNodeName());
+            theMatchPatternString.get().append(1, XalanUnicode::charApostrophe);
             theMatchPatternString.get().append(1, XalanUnicode::charRightParenthesis);
 
             countMatchPattern = executionContext.createMatchPattern(
